@@ -25,6 +25,7 @@ func init() {
 }
 
 func runC10(w *World, r *Report) {
+	hrTotalCountsAllGroups(w, r, "R3")
 	hrTimeoutAboveTTL(w, r, "R6")
 	hrCountsCopy(w, r, "R3")
 	// arrival order inside one priority is the order of the (monotonic) clock readings (C11.R4)
